@@ -10,7 +10,7 @@ from vlib.runner import Result
 
 ID = 'C05'
 RULE = ('Cases = generated scene (layered, split_candidate with >= 30 hits per group, merge_chain, bundle_stress, '
-        'degenerate: single valid hit / all-NaN / identical / two heights / ..., exact_counts, ref_window, plus '
+        'frames with plain / non-unique / equal / reversed / string index labels, degenerate: single valid hit / all-NaN / identical / two heights / ..., exact_counts, ref_window, plus '
         'dedicated many_slices cases with >= 102 slices below a splittable group) x slicing / grouping / layering '
         'parameters x MSA. Oracle (invariants): every valid-height row of chunk.data has slice, group and layer id '
         '>= 0 and every NaN row has -1 in all three; the multiset of (ceilo, dt, height, type) of chunk.data equals '
@@ -28,7 +28,7 @@ WEIGHTS = {'layered': 6, 'split_candidate': 6, 'merge_chain': 3, 'bundle_stress'
 
 def strategy(tier):
     return S.pipeline_case(WEIGHTS, vary=('msa', 'okta', 'sep', 'base', 'algo'), p_default_prms=0.2,
-                           exclude=False)
+                           exclude=False, index_kinds=True)
 
 
 def rowkey(c, dt, h, t):
@@ -96,6 +96,8 @@ def check(case):
     split = any(k > 1 for k in ncomps)
     res.nontrivial = split or (chunk.n_groups < chunk.n_slices) or chunk.n_slices >= 10 or \
         case['cls'] in ('degenerate', 'many_slices')
+    if case.get('index', 'range') != 'range':
+        res.labels.append('index:' + case['index'])
     if split:
         res.labels.append('split-group')
     if chunk.n_groups < chunk.n_slices:
